@@ -38,6 +38,11 @@ fn check_forest(levels: &[u16], vis: &dyn Fn(usize) -> bool, sample_only: bool, 
     if hz % 3 == 0 {
         crate::encode::junk_zindex(&mut enc, &mut crate::encode::Rng(hz));
     }
+    // header flags bit 0 ("layer opacity is valid") and bit 1 ("groups have their own blend mode and opacity", newer
+    // format revisions): every layer here is Normal at opacity 255 and the marks are opaque and do not overlap, so
+    // a reader that ignores the flags and one that honours them must produce the same frame
+    let hf = [1u32, 1, 0, 3, 2][((hz >> 8) % 5) as usize];
+    enc.bytes[14..18].copy_from_slice(&hf.to_le_bytes());
     let f = AsepriteFile::read(&enc.bytes[..]).map_err(|e| Failure::new("load-error", format!("forest failed to load: {}", e)))?;
     let n = levels.len();
     let step = if sample_only { (n / 200).max(1) } else { 1 };
